@@ -117,6 +117,11 @@ fn baseline(b: u64) -> Plan {
             }
         }
         "closed_loop" => {
+            {
+                // somebody has been asking since before the server came up: the first worker to
+                // bind answers while the others (and main) are still starting
+                plan.step(100, Action::Flood { sock: 99, proto: if rng.chance(1, 2) { P::Classic } else { P::Ietf }, interval_ns: 300_000, count: 300, payload: Some("valid".into()) });
+            }
             let clients = 1 + rng.below(12) as u32;
             for c in 0..clients {
                 plan.step(20_000 + rng.below(500), Action::ClosedLoop { sock: c, protos: vec![P::Classic, P::Ietf], count: 10_000, think_us: *rng.pick(&[500u64, 2_000, 5_000]), timeout_ms: 200 });
@@ -173,7 +178,8 @@ thread_local! {
     static BASE: RefCell<BTreeMap<u64, (u64, u64)>> = RefCell::new(BTreeMap::new());
 }
 
-/// (step at which every worker is serving, total steps) of the baseline execution
+/// (step at which the first worker is serving, total steps) of the baseline execution: "at any
+/// moment" includes the moments at which some workers are still starting
 fn baseline_extent(b: u64) -> (u64, u64) {
     if let Some(x) = BASE.with(|m| m.borrow().get(&b).copied()) {
         return x;
@@ -194,7 +200,7 @@ fn baseline_extent(b: u64) -> (u64, u64) {
                 }
             }
         }
-        let start = if serving.len() >= workers { *serving.values().max().unwrap() + 1 } else { w.steps };
+        let start = if serving.len() >= workers { *serving.values().min().unwrap() + 1 } else { w.steps };
         (start, w.steps)
     })
     .unwrap_or((u64::MAX / 4, u64::MAX / 4));
@@ -211,7 +217,16 @@ fn gen(seed: u64, idx: u64, tier: Tier) -> Plan {
     let mut rng = Rng::derive(seed, "c19-instant");
     let span = total.saturating_sub(start).max(1);
     // thorough with span <= k: every instant; otherwise stratified with a seeded offset per stratum
-    let step = if span <= k { start + j % span } else { start + span * j / k + rng.below((span / k).max(1)) };
+    // (the first eight instants of a stratified baseline fall into its first fiftieth: the
+    // start-up of the other workers, where things are installed and registered one after another)
+    let head = (span / 50).max(8).min(span);
+    let step = if span <= k {
+        start + j % span
+    } else if j < 8 {
+        start + head * j / 8 + rng.below((head / 8).max(1))
+    } else {
+        start + span * j / k + rng.below((span / k).max(1))
+    };
     plan.params.insert("signal_step".into(), step as i64);
     plan.params.insert("baseline_steps".into(), total as i64);
     let sig = plan.p("sig") as i32;
@@ -249,6 +264,13 @@ fn check(plan: &Plan, out: &RunOut) -> CheckOut {
     };
     let _ = sig_seq;
     if !handled {
+        // before the handler is installed a signal simply ends the process: nothing to judge —
+        // unless the server was already serving, which it must not be without one
+        let served = w.history.iter().any(|r| r.t <= t_sig && matches!(&r.ev, dsim::Ev::UdpSend { ok: true, .. }) && r.task.map(|t| w.procs[w.tasks[t].proc].sut).unwrap_or(false));
+        if served {
+            co.nontrivial = true;
+            co.violate("C19", "exit_status_nonzero", format!("C19|signal_not_handled_while_serving|load={}", load), format!("{} at {:.6}s met no handler although the server had already answered a request: the process was ended by the signal", if plan.p("sig") == 2 { "SIGINT" } else { "SIGTERM" }, t_sig as f64 / 1e9));
+        }
         co.probe("signal_before_handler_installed");
         return co;
     }
